@@ -3,3 +3,6 @@ import Rtcm.Model.Crc
 import Rtcm.Model.Decode
 import Rtcm.Model.Message
 import Rtcm.Model.Reader
+import Rtcm.Model.Socket
+import Rtcm.Model.Names
+import Rtcm.Gen.Tables
